@@ -542,3 +542,11 @@ def w2(ctx):
                           "%s can return an etag without having committed and without the new/old id comparison saying 'unchanged': the write is "
                           "acknowledged but never performed (e.g. when the blob happens to exist already)" % fi.short))
     return obs
+
+
+@rule("C01", "W3", floor=8, kind="N",
+      desc="a failed write leaves the member as it was: files are written to a hidden temporary name, closed, and only "
+           "then renamed (same obligations as C04/A1, A2, A3)")
+def w3(ctx):
+    from .c04 import a1, a2, a3
+    return list(a1(ctx)) + list(a2(ctx)) + list(a3(ctx))
